@@ -1,4 +1,9 @@
 import NfcVerif.Lemmas.FnBridgeTco
+import NfcVerif.Props.C05
+import NfcVerif.Props.C10
+import NfcVerif.Model.SapLink
+import NfcVerif.Model.DlcSap
+import NfcVerif.Model.CollectOps
 /-!
 # Bridge theorems, group Tco (`nfc/llcp/tco.py` -> `Gen/FnTco.lean` -> `Model/Dlc.lean`, `Model/Collect.lean`,
 `Model/Sap.lean`, `Model/FnTcoRef.lean`)
@@ -15,17 +20,19 @@ open NfcVerif NfcVerif.PyFn
 
 /-- `DataLinkConnection.send_window_slots` is the model's `Ep.sendSlots` -/
 theorem send_window_slots_bridge (e : Dlc.Ep) :
-    Gen.Fn.tco_send_window_slots e.sendWin e.vs e.vsa = e.sendSlots := rfl
+    Gen.Fn.tco_send_window_slots e.sendWin e.vs e.vsa = e.sendSlots := by
+  unfold Gen.Fn.tco_send_window_slots Dlc.Ep.sendSlots; omega
 
 /-- `DataLinkConnection.recv_window_slots` is the model's `Ep.recvSlots` -/
 theorem recv_window_slots_bridge (e : Dlc.Ep) :
-    Gen.Fn.tco_recv_window_slots e.recvWin e.vr e.vra = e.recvSlots := rfl
+    Gen.Fn.tco_recv_window_slots e.recvWin e.vr e.vra = e.recvSlots := by
+  unfold Gen.Fn.tco_recv_window_slots Dlc.Ep.recvSlots; omega
 
 /-- ... and the `slots` of the collection model (C10), which works on naturals -/
 theorem recv_window_slots_collect (rw cnt ack : Nat) :
     Gen.Fn.tco_recv_window_slots rw cnt ack = (Collect.slots rw cnt ack : Nat) := by
   unfold Gen.Fn.tco_recv_window_slots Collect.slots
-  exact slots_nat rw cnt ack
+  omega
 
 example : Gen.Fn.tco_send_window_slots 15 3 14 = 10 := by decide
 example : Gen.Fn.tco_recv_window_slots 1 0 15 = 0 := by decide
@@ -55,6 +62,31 @@ theorem gen_wakeup_rechecks (s : Dlc.Sys) (m : Bytes) (hst : s.a.st = .establish
     (Dlc.step s .A (.send m)).1 = s := by
   rw [send_window_slots_bridge] at hw
   by_cases h : m.length > s.a.sendMiu <;> simp [Dlc.step, Dlc.stepA, Dlc.Ep.send, hst, hw, h]
+
+/-- `C05.dlc_window` for the regenerated window function: in every reachable state of two correct endpoints
+the free slots `send_window_slots` plus the unacknowledged I PDUs `(V(S) - V(SA)) mod 16` are exactly the
+receive window the peer announced - so a sender that only sends with `send_window_slots > 0` never exceeds it -/
+theorem gen_window (c : Dlc.Cfg) (hc : c.ok) (ops : List (Dlc.Side × Dlc.Op)) :
+    let s := Dlc.run (Dlc.init c) ops
+    Gen.Fn.tco_send_window_slots s.a.sendWin s.a.vs s.a.vsa + ((s.a.vs : Int) - s.a.vsa) % 16 = s.b.recvWin ∧
+    Gen.Fn.tco_send_window_slots s.b.sendWin s.b.vs s.b.vsa + ((s.b.vs : Int) - s.b.vsa) % 16 = s.a.recvWin := by
+  intro s
+  have h : Dlc.Inv s := Dlc.reach_inv c hc ops
+  have w := C05.dlc_window c hc ops
+  obtain ⟨_, wa, _, _, wb, _⟩ := w
+  have ha := h.1.win
+  have hb := h.2.win
+  unfold Gen.Fn.tco_send_window_slots
+  constructor
+  · have e : s.a.sendWin = s.b.recvWin := ha.2.1
+    have l : s.a.sendWin ≤ 15 := ha.1
+    have wa' : ((s.a.vs : Int) - s.a.vsa) % 16 ≤ s.b.recvWin := wa
+    omega
+  · have e : s.b.sendWin = s.a.recvWin := hb.2.1
+    have l : s.b.sendWin ≤ 15 := hb.1
+    have wb' : ((s.b.vs : Int) - s.b.vsa) % 16 ≤ s.a.recvWin := wb
+    omega
+
 
 /-! ## socket options -/
 
@@ -135,8 +167,9 @@ theorem gen_ldl_enqueue_sap (s : Sap.Sock) (p : Sap.Pdu) (hk : s.kind = .ldl) :
   rw [hk]
   cases p with
   | ui d ss data =>
+    have e : Gen.Fn.tco_ldl_enqueue_check "UI" data 248 = _ := ldl_enqueue_check_bridge "UI" data 248
     simp only
-    rw [ldl_enqueue_check_bridge]
+    rw [e]
     unfold FnTcoRef.ldlAccepts
     by_cases h : data.length > 248
     · have : ¬ data.length ≤ 248 := by omega
@@ -145,7 +178,576 @@ theorem gen_ldl_enqueue_sap (s : Sap.Sock) (p : Sap.Pdu) (hk : s.kind = .ldl) :
       simp [h, this]
   | _ => rfl
 
-example : Gen.Fn.tco_ldl_enqueue_check "UI" (List.replicate 248 0) 248 = .none := by decide
-example : Gen.Fn.tco_ldl_enqueue_check "UI" (List.replicate 249 0) 248 = .bool false := by decide
+example : Gen.Fn.tco_ldl_enqueue_check "UI" [1, 2, 3] 3 = .none := by
+  simp [Gen.Fn.tco_ldl_enqueue_check, len_eq]
+example : Gen.Fn.tco_ldl_enqueue_check "UI" [1, 2, 3, 4] 3 = .bool false := by
+  simp [Gen.Fn.tco_ldl_enqueue_check, len_eq]
+example : Gen.Fn.tco_ldl_enqueue_check "I" [] 248 = .bool false := by
+  simp [Gen.Fn.tco_ldl_enqueue_check]
+
+/-! ## `DataLinkConnection.send` -/
+
+/-- the MIU test of `send()` is the model's `sendCheck` (C10) -/
+theorem dlc_send_check_bridge (m : Bytes) (miu : Nat) :
+    Gen.Fn.tco_dlc_send_check m miu = Collect.sendCheck m.length miu := by
+  unfold Gen.Fn.tco_dlc_send_check Collect.sendCheck
+  by_cases h : m.length > miu
+  · have : len m > (miu : Int) := by rw [len_eq]; omega
+    simp [h, this]
+  · have : ¬ len m > (miu : Int) := by rw [len_eq]; omega
+    simp [h, this]
+
+/-- N(S) of the new I PDU is V(S), then V(S) advances modulo 16 -/
+theorem dlc_send_seq_bridge (vs : Nat) :
+    Gen.Fn.tco_dlc_send_seq vs = ((vs : Int), (((vs + 1) % 16 : Nat) : Int)) := by
+  unfold Gen.Fn.tco_dlc_send_seq
+  simp only [Prod.mk.injEq, true_and]
+  omega
+
+/-- the model's whole `send` step of an established endpoint, composed of the three regenerated pieces
+(MIU test, window test, sequence numbers) -/
+theorem dlc_send_bridge (e : Dlc.Ep) (m : Bytes) (hst : e.st = .established) :
+    e.send m =
+      match Gen.Fn.tco_dlc_send_check m e.sendMiu with
+      | .error x => (e, .exc x)
+      | .ok () =>
+        if Gen.Fn.tco_send_window_slots e.sendWin e.vs e.vsa = 0 then (e, .exc (.llcp 11))
+        else ({ e with sq := e.sq ++ [.i (Gen.Fn.tco_dlc_send_seq e.vs).1.toNat m],
+                       vs := (Gen.Fn.tco_dlc_send_seq e.vs).2.toNat,
+                       gS := e.gS + 1, accepted := e.accepted ++ [m] }, .ok) := by
+  rw [dlc_send_check_bridge, dlc_send_seq_bridge, send_window_slots_bridge]
+  unfold Dlc.Ep.send Collect.sendCheck
+  by_cases h : m.length > e.sendMiu
+  · simp [hst, h]
+  · by_cases hw : e.sendSlots = 0
+    · simp [hst, h, hw]
+    · simp [hst, h, hw]; omega
+
+example : Gen.Fn.tco_dlc_send_check [1, 2, 3] 2 = .error (.llcp 90) := by decide
+example : Gen.Fn.tco_dlc_send_check [1, 2, 3] 3 = .ok () := by decide
+example : Gen.Fn.tco_dlc_send_seq 15 = (15, 0) := by decide
+
+/-- `C05.dlc_emsgsize` for the regenerated test: when it raises, the send step of an established endpoint
+is refused with that exception and changes nothing -/
+theorem gen_emsgsize (s : Dlc.Sys) (m : Bytes) (x : Exc) (hst : s.a.st = .established)
+    (h : Gen.Fn.tco_dlc_send_check m s.a.sendMiu = .error x) :
+    Dlc.step s .A (.send m) = (s, .exc (.llcp 90)) := by
+  rw [dlc_send_check_bridge] at h
+  unfold Collect.sendCheck at h
+  split at h
+  · exact (C05.dlc_emsgsize s m).1 hst (by assumption)
+  · cases h
+
+/-- `C10.ui_i_payload_bound` for the regenerated tests of `send()` and `sendto()`: an accepted payload is
+within the MIU it was tested against, a refused one is refused with EMSGSIZE -/
+theorem gen_payload_bound (m : Bytes) (miu : Nat) :
+    (Gen.Fn.tco_dlc_send_check m miu = .ok () → m.length ≤ miu) ∧
+    (Gen.Fn.tco_dlc_send_check m miu ≠ .ok () → Gen.Fn.tco_dlc_send_check m miu = .error (.llcp 90)) := by
+  rw [dlc_send_check_bridge]
+  exact ⟨(C10.ui_i_payload_bound m.length miu 0 0).1, (C10.ui_i_payload_bound m.length miu 0 0).2.1⟩
+
+/-! ## N(R) / N(S) processing of a received I, RR or RNR PDU -/
+
+/-- `acks = (N(R) - V(SA)) % 16`: the model's `Ep.ackIn` is this number applied to `acks_recvd` and V(SA) -/
+theorem est_acks_bridge (e : Dlc.Ep) (nr : Nat) :
+    e.ackIn nr =
+      (let a := (Gen.Fn.tco_est_acks nr e.vsa).toNat
+       if a ≠ 0 then { e with acks := e.acks + a, vsa := nr, gSA := e.gSA + a } else e) := rfl
+
+/-- the number of newly acknowledged PDUs is in `0..15` for ANY integers -/
+theorem gen_acks_range (nr vsa : Int) : 0 ≤ Gen.Fn.tco_est_acks nr vsa ∧ Gen.Fn.tco_est_acks nr vsa < 16 := by
+  show 0 ≤ (nr - vsa) % 16 ∧ (nr - vsa) % 16 < 16
+  omega
+
+/-- V(R) after an I PDU with the expected N(S) and a payload within the MIU was accepted -/
+theorem est_recv_cnt_bridge (e : Dlc.Ep) (ns nr : Nat) (d : Bytes) (h1 : ¬ d.length > e.recvMiu) (h2 : ns = e.vr) :
+    ((e.enqEst (.i ns nr d)).vr : Int) = Gen.Fn.tco_est_recv_cnt e.vr := by
+  have hv : (e.ackIn nr).vr = e.vr := by unfold Dlc.Ep.ackIn; simp only; split <;> rfl
+  unfold Gen.Fn.tco_est_recv_cnt Dlc.Ep.enqEst
+  simp only [h1, h2, if_false, ne_eq, not_true_eq_false, hv]
+  split <;> simp <;> omega
+
+example : Gen.Fn.tco_est_acks 2 14 = 4 := by decide
+example : Gen.Fn.tco_est_recv_cnt 15 = 0 := by decide
+
+/-! ## acknowledgement generation (`sendack`, and the two places in `dequeue`) -/
+
+/-- voluntary acknowledgement: V(RA) := V(RA) + recv_confs mod 16, recv_confs := 0 is the model's `Ep.confirm` -/
+theorem sendack_confirm_bridge (e : Dlc.Ep) :
+    Gen.Fn.tco_sendack_confirm e.vra e.confs = ((e.confirm.vra : Int), (e.confirm.confs : Int)) := by
+  unfold Gen.Fn.tco_sendack_confirm Dlc.Ep.confirm
+  simp only [Prod.mk.injEq, Int.natCast_zero, and_true]
+  omega
+
+/-- necessary acknowledgement in `dequeue`: the same update -/
+theorem deq_necessary_confirm_bridge (e : Dlc.Ep) :
+    Gen.Fn.tco_deq_necessary_confirm e.vra e.confs = ((e.confirm.vra : Int), (e.confirm.confs : Int)) := by
+  unfold Gen.Fn.tco_deq_necessary_confirm Dlc.Ep.confirm
+  simp only [Prod.mk.injEq, Int.natCast_zero, and_true]
+  omega
+
+/-- the collection model (C10) writes the same update on its `Dlc` record -/
+theorem gen_confirm_collect (d : Collect.Dlc) (q : List Collect.QPdu)
+    (h : d.state = .established ∧ d.confs ≠ 0 ∧ d.cnt ≠ d.ack) :
+    ∃ p, (Collect.Sock.dlc d q).sendack =
+      (some p, .dlc { d with ack := (Gen.Fn.tco_sendack_confirm d.ack d.confs).1.toNat,
+                              confs := (Gen.Fn.tco_sendack_confirm d.ack d.confs).2.toNat } q) := by
+  refine ⟨Collect.ackPdu d.busy ((d.ack + d.confs) % 16), ?_⟩
+  unfold Collect.Sock.sendack Gen.Fn.tco_sendack_confirm
+  simp only [h, and_self, if_true, ne_eq, not_false_eq_true]
+  congr 3
+
+example : Gen.Fn.tco_sendack_confirm 14 3 = (1, 0) := by decide
+
+/-! ## `LogicalDataLink.sendto` -/
+
+/-- the three checks of `sendto()` in source order: ESHUTDOWN, EDESTADDRREQ (a connected socket only sends
+to its peer; `peer = None` passed as 0), EMSGSIZE against `send_miu` -/
+theorem ldl_sendto_check_bridge (m : Bytes) (dest : Nat) (sd : Bool) (peer : Option Nat) (miu : Nat) :
+    Gen.Fn.tco_ldl_sendto_check m dest sd ((peer.getD 0 : Nat) : Int) miu =
+      if sd then .error (.llcp 108)
+      else if Sap.peerMismatch peer dest then .error (.llcp 89)
+      else Collect.sendCheck m.length miu := by
+  unfold Gen.Fn.tco_ldl_sendto_check
+  rw [show (if len m > (miu : Int) then (Except.error (Exc.llcp 90) : Py Unit) else Except.ok ())
+      = Gen.Fn.tco_dlc_send_check m miu from rfl, dlc_send_check_bridge]
+  cases sd with
+  | true => simp
+  | false =>
+    simp only [Bool.false_eq_true, if_false]
+    cases peer with
+    | none => simp [Sap.peerMismatch]
+    | some pr =>
+      simp only [Option.getD_some, Sap.peerMismatch, Bool.and_eq_true, bne_iff_ne, ne_eq]
+      by_cases h0 : pr = 0
+      · subst h0; simp
+      · by_cases h1 : dest = pr
+        · subst h1; simp
+        · have b : ((dest : Int) ≠ (pr : Int)) := by omega
+          simp [h0, h1, b]
+
+example : Gen.Fn.tco_ldl_sendto_check [1] 32 false 16 128 = .error (.llcp 89) := by decide
+example : Gen.Fn.tco_ldl_sendto_check [1] 32 false 0 128 = .ok () := by decide
+
+/-- the address-table model (C17, `SapLink.apiSendto`) on a logical data link socket runs these checks with
+the initial `send_miu` of 128 -/
+theorem gen_ldl_sendto_saplink (s : Sap.Sock) (m : Bytes) (dest : Nat) :
+    (if s.st = .shutdown then (Except.error (.llcp Sap.ESHUTDOWN) : Py Unit)
+     else if Sap.peerMismatch s.peer dest then .error (.llcp Sap.EDESTADDRREQ)
+     else if m.length > 128 then .error (.llcp Sap.EMSGSIZE) else .ok ())
+      = Gen.Fn.tco_ldl_sendto_check m dest (decide (s.st = .shutdown)) ((s.peer.getD 0 : Nat) : Int) (128 : Nat) := by
+  rw [ldl_sendto_check_bridge]
+  unfold Collect.sendCheck Sap.ESHUTDOWN Sap.EDESTADDRREQ Sap.EMSGSIZE
+  by_cases h : s.st = .shutdown <;> simp [h] <;> rfl
+
+/-! ## batch 2: whole decision chains of `send`, `_enqueue_state_established`, `recv`, `dequeue`, `enqueue`, `setsockopt` -/
+
+/-- state check and MIU test of `send()`: ENOTCONN (107) unless ESTABLISHED, EPIPE (32) in CLOSE_WAIT, then
+EMSGSIZE - the first two tests of the collection model's `send` operation -/
+theorem dlc_send_state_bridge (m : Bytes) (st : Collect.DlcState) (miu : Nat) :
+    Gen.Fn.tco_dlc_send_state m (decide (st = .established)) (decide (st = .closeWait)) miu =
+      if st ≠ .established then .error (.llcp (if st = .closeWait then 32 else 107))
+      else Collect.sendCheck m.length miu := by
+  rw [← dlc_send_check_bridge]
+  unfold Gen.Fn.tco_dlc_send_state Gen.Fn.tco_dlc_send_check
+  cases st <;> simp
+
+/-- the `while` of `send()` waits exactly while the window is closed and the connection established -/
+theorem dlc_send_wait_cond_bridge (slots : Int) (est : Bool) :
+    Gen.Fn.tco_dlc_send_wait_cond slots est = (decide (slots = 0) && est) := by
+  unfold Gen.Fn.tco_dlc_send_wait_cond
+  cases est <;> simp
+
+/-- a non-blocking `send()` on a closed window: EWOULDBLOCK (errno 11) iff bit 0 (MSG_DONTWAIT) is set -/
+theorem dlc_send_dontwait_bridge (flags : Nat) :
+    Gen.Fn.tco_dlc_send_dontwait flags = if flags % 2 = 1 then .error (.llcp 11) else .ok () := by
+  unfold Gen.Fn.tco_dlc_send_dontwait
+  py_bits
+  by_cases h : flags % 2 = 1
+  · simp [h]
+  · have : flags % 2 = 0 := by omega
+    simp [this]
+
+/-- the collection model's `send` operation (C10) composed of the regenerated pieces -/
+theorem gen_collect_send (M : Nat) (sec : Option Nat) (agf : Bool) (es : List Collect.Ent) (a j n id : Nat)
+    (d : Collect.Dlc) (q : List Collect.QPdu) (h : Collect.getSock es a j = some (.dlc d q)) :
+    Collect.step M sec agf es (.send a j n id) =
+      match Gen.Fn.tco_dlc_send_state (List.replicate n 0) (decide (d.state = .established))
+              (decide (d.state = .closeWait)) d.sendMiu with
+      | .error e => (es, .exc e)
+      | .ok () =>
+        if Gen.Fn.tco_dlc_send_wait_cond (Gen.Fn.tco_send_window_slots d.sendWin d.sendCnt d.sendAck) true then
+          (match Gen.Fn.tco_dlc_send_dontwait 1 with
+           | .error e => (es, .exc e)
+           | .ok () => (es, .bad))
+        else (Collect.setSock es a j (.dlc { d with sendCnt := (Gen.Fn.tco_dlc_send_seq d.sendCnt).2.toNat }
+                (q ++ [Collect.iPdu n id d.sendMiu])), .ok) := by
+  rw [dlc_send_state_bridge, dlc_send_wait_cond_bridge]
+  have hs : (Gen.Fn.tco_send_window_slots d.sendWin d.sendCnt d.sendAck = 0) ↔ Collect.sendSlots d = 0 := by
+    unfold Gen.Fn.tco_send_window_slots Collect.sendSlots; omega
+  have hq : (Gen.Fn.tco_dlc_send_seq d.sendCnt).2.toNat = (d.sendCnt + 1) % 16 := by
+    unfold Gen.Fn.tco_dlc_send_seq; simp only; omega
+  have hd : Gen.Fn.tco_dlc_send_dontwait 1 = .error (.llcp 11) := by decide
+  rw [hq, hd]
+  simp only [Collect.step, h, List.length_replicate, Collect.sendCheck]
+  by_cases h1 : d.state = .established
+  · by_cases h2 : n > d.sendMiu
+    · simp [h1, h2]
+    · by_cases h3 : Collect.sendSlots d = 0
+      · simp [h1, h2, h3, hs.mpr h3]
+      · have : ¬ Gen.Fn.tco_send_window_slots d.sendWin d.sendCnt d.sendAck = 0 := fun x => h3 (hs.mp x)
+        simp [h1, h2, h3, this]
+  · simp [h1]
+
+
+/-- N(R) processing of a received RR / RNR / I PDU (statement 3 of `_enqueue_state_established`):
+`acks_recvd`, V(SA) and SEND_BUSY afterwards are those of the model's `Ep.ackIn` / `Ep.enqEst`; any other PDU
+leaves them alone -/
+theorem est_nr_bridge (e : Dlc.Ep) (nr : Nat) :
+    Gen.Fn.tco_est_nr "RR" nr e.vsa e.acks e.sendBusy
+      = (((e.enqEst (.rr nr)).acks : Int), ((e.enqEst (.rr nr)).vsa : Int), (e.enqEst (.rr nr)).sendBusy) ∧
+    Gen.Fn.tco_est_nr "RNR" nr e.vsa e.acks e.sendBusy
+      = (((e.enqEst (.rnr nr)).acks : Int), ((e.enqEst (.rnr nr)).vsa : Int), (e.enqEst (.rnr nr)).sendBusy) ∧
+    Gen.Fn.tco_est_nr "I" nr e.vsa e.acks e.sendBusy
+      = (((e.ackIn nr).acks : Int), ((e.ackIn nr).vsa : Int), (e.ackIn nr).sendBusy) ∧
+    (∀ name, name ≠ "I" → name ≠ "RR" → name ≠ "RNR" →
+      Gen.Fn.tco_est_nr name nr e.vsa e.acks e.sendBusy = ((e.acks : Int), (e.vsa : Int), e.sendBusy)) := by
+  have key : ∀ (b : Bool), 
+      (((if (((nr : Int) - e.vsa) % 16) ≠ 0 then ((e.acks : Int) + ((nr : Int) - e.vsa) % 16, (nr : Int)) else ((e.acks : Int), (e.vsa : Int))).1,
+        (if (((nr : Int) - e.vsa) % 16) ≠ 0 then ((e.acks : Int) + ((nr : Int) - e.vsa) % 16, (nr : Int)) else ((e.acks : Int), (e.vsa : Int))).2, b)
+        : Int × Int × Bool)
+      = (((e.ackIn nr).acks : Int), ((e.ackIn nr).vsa : Int), b) := by
+    intro b
+    unfold Dlc.Ep.ackIn
+    simp only
+    by_cases h : (((nr : Int) - e.vsa) % 16) = 0
+    · simp [h]
+    · have : ¬ (((nr : Int) - e.vsa) % 16).toNat = 0 := by omega
+      simp only [h, this, ne_eq, not_false_eq_true, if_true, Prod.mk.injEq, and_true]
+      simp only [Int.natCast_add]; omega
+  refine ⟨?_, ?_, ?_, ?_⟩
+  · have := key false
+    simp only [Gen.Fn.tco_est_nr, Dlc.Ep.enqEst]
+    simpa using this
+  · have := key true
+    simp only [Gen.Fn.tco_est_nr, Dlc.Ep.enqEst]
+    simpa using this
+  · have hb : (e.ackIn nr).sendBusy = e.sendBusy := by unfold Dlc.Ep.ackIn; simp only; split <;> rfl
+    have := key e.sendBusy
+    rw [hb]
+    simp only [Gen.Fn.tco_est_nr]
+    simpa using this
+  · intro name h1 h2 h3
+    simp [Gen.Fn.tco_est_nr, h1, h2, h3]
+
+
+/-- which frame reject a received I PDU provokes: `I` (payload exceeds the local MIU) before `S` (N(S) is not
+V(R)), none otherwise; `fi`, `fs` stand for the two `FrameReject.from_pdu` results -/
+theorem est_check_bridge (d : Bytes) (ns miu vr : Nat) (fi fs : Int) :
+    Gen.Fn.tco_est_check d ns miu vr fi fs =
+      if d.length > miu then some fi else if ns ≠ vr then some fs else none := by
+  unfold Gen.Fn.tco_est_check
+  by_cases h : d.length > miu
+  · have : len d > (miu : Int) := by rw [len_eq]; omega
+    simp [h, this]
+  · have : ¬ len d > (miu : Int) := by rw [len_eq]; omega
+    by_cases h2 : ns = vr
+    · subst h2; simp [h, this]
+    · have : ¬ (ns : Int) = (vr : Int) := by omega
+      simp [*]
+
+/-- the model's reception of an I PDU on an established connection, with the regenerated decision: flag
+marker 4 = `I`, 1 = `S` (the FRMR flag bits W=8, I=4, R=2, S=1) -/
+theorem gen_enqEst_i (e : Dlc.Ep) (ns nr : Nat) (d : Bytes) :
+    e.enqEst (.i ns nr d) =
+      match Gen.Fn.tco_est_check d ns e.recvMiu e.vr 4 1 with
+      | some f => e.reject f.toNat ns nr
+      | none =>
+        let e1 := e.ackIn nr
+        let e2 := { e1 with vr := (Gen.Fn.tco_est_recv_cnt e1.vr).toNat, gR := e1.gR + 1 }
+        if Gen.Fn.tco_enqueue_room e2.rq.length e2.recvWin then { e2 with rq := e2.rq ++ [.msg d] }
+        else { e2 with gDiscard := true } := by
+  rw [est_check_bridge]
+  unfold Dlc.Ep.enqEst
+  by_cases h : d.length > e.recvMiu
+  · simp [h]
+  · by_cases h2 : ns = e.vr
+    · have hv : ∀ v : Nat, (Gen.Fn.tco_est_recv_cnt v).toNat = (v + 1) % 16 := by
+        intro v; unfold Gen.Fn.tco_est_recv_cnt; simp only; omega
+      have hr : ∀ a b : Nat, (Gen.Fn.tco_enqueue_room a b = true) ↔ a < b := by
+        intro a b; unfold Gen.Fn.tco_enqueue_room
+        by_cases hab : a < b
+        · have : (a : Int) < b := by omega
+          simp [hab, this]
+        · have : ¬ (a : Int) < b := by omega
+          simp [hab, this]
+      simp only [h, h2, if_false, ne_eq, not_true_eq_false, hv, hr]
+    · simp [h, h2]
+
+/-- confirmation counting of `recv()`: one more unconfirmed message; more than RW(L) of them is the
+`RuntimeError` of the model's `Ep.recv` -/
+theorem dlc_recv_confs_bridge (confs win : Nat) :
+    Gen.Fn.tco_dlc_recv_confs confs win =
+      if confs + 1 > win then .error .runtime else .ok (((confs + 1 : Nat)) : Int) := by
+  unfold Gen.Fn.tco_dlc_recv_confs
+  by_cases h : confs + 1 > win
+  · have : (confs : Int) + 1 > win := by omega
+    simp [h, this]
+  · have : ¬ (confs : Int) + 1 > win := by omega
+    simp [h, this]
+
+theorem gen_recv (e : Dlc.Ep) (d : Bytes) (rest : List Dlc.Rq) (hb : e.bound = true)
+    (hst : e.st = .established) (hq : e.rq = .msg d :: rest) :
+    e.recv = match Gen.Fn.tco_dlc_recv_confs e.confs e.recvWin with
+      | .error x => ({ e with rq := rest, confs := e.confs + 1, gOverrun := true }, .exc x)
+      | .ok c => ({ e with rq := rest, confs := c.toNat, delivered := e.delivered ++ [d] }, .data d) := by
+  rw [dlc_recv_confs_bridge]
+  unfold Dlc.Ep.recv
+  by_cases h : e.confs + 1 > e.recvWin <;> simp [hb, hst, hq, h]
+
+/-- piggy-backed acknowledgement: the state the model's `deq` continues with and the N(R) it puts into the I PDU -/
+theorem deq_piggyback_bridge (e : Dlc.Ep) :
+    let e1 := if e.confs ≠ 0 ∧ e.vr ≠ e.vra then e.confirm else e
+    Gen.Fn.tco_deq_piggyback e.confs e.vr e.vra = ((e1.vra : Int), (e1.vra : Int), (e1.confs : Int)) := by
+  intro e1
+  unfold Gen.Fn.tco_deq_piggyback
+  by_cases h : e.confs ≠ 0 ∧ e.vr ≠ e.vra
+  · have h' : ((e.confs : Int) ≠ 0 ∧ (e.vr : Int) ≠ (e.vra : Int)) := by omega
+    have he : e1 = e.confirm := by simp [e1, h]
+    rw [he]
+    rw [if_pos h']
+    simp only [Dlc.Ep.confirm, Prod.mk.injEq, Int.natCast_zero, and_true]
+    omega
+  · have h' : ¬ ((e.confs : Int) ≠ 0 ∧ (e.vr : Int) ≠ (e.vra : Int)) := by omega
+    have he : e1 = e := by simp [e1, h]
+    rw [he]
+    rw [if_neg h']
+
+
+/-- `TransmissionControlObject.dequeue(miu_size, icv_size)` on the popped PDU `p`: requeued (None) exactly
+when the model's `tcoDequeue` leaves it in the queue, otherwise the size it computed is `QPdu.size` -/
+theorem dequeue_fit_bridge (p : Collect.QPdu) (rest : List Collect.QPdu) (miu : Option Int) (icv : Nat) :
+    Collect.tcoDequeue (p :: rest) miu icv =
+      match Gen.Fn.tco_dequeue_fit miu icv (kindName p.kind) p.len p.hdr with
+      | none => (none, p :: rest)
+      | some _ => (some p, rest) := by
+  unfold Gen.Fn.tco_dequeue_fit
+  have hk := kindName_ui_i p.kind
+  cases miu with
+  | none => simp [Collect.tcoDequeue]
+  | some m =>
+    simp only [Collect.tcoDequeue, Collect.QPdu.size]
+    by_cases hui : (p.kind = .ui ∨ p.kind = .i)
+    · have hn := hk.mpr hui
+      simp only [hui, hn, if_true]
+      by_cases hc : ((p.len + icv : Nat) : Int) - (p.hdr : Int) > m
+      · have : ((p.len : Int) + (icv : Int)) - (p.hdr : Int) > m := by omega
+        simp [this]
+      · have : ¬ ((p.len : Int) + (icv : Int)) - (p.hdr : Int) > m := by omega
+        simp [this]
+    · have hn : ¬ (kindName p.kind = "UI" ∨ kindName p.kind = "I") := fun x => hui (hk.mp x)
+      simp only [hui, hn, if_false]
+      by_cases hc : ((p.len : Nat) : Int) - (p.hdr : Int) > m
+      · simp [hc]
+      · simp [hc]
+
+/-- `TransmissionControlObject.enqueue`: True (queued) iff fewer than `recv_buf` PDUs wait -/
+theorem enqueue_room_bridge (queued buf : Nat) :
+    Gen.Fn.tco_enqueue_room queued buf = decide (queued < buf) := by
+  unfold Gen.Fn.tco_enqueue_room
+  by_cases h : queued < buf
+  · have : (queued : Int) < buf := by omega
+    simp [h, this]
+  · have : ¬ (queued : Int) < buf := by omega
+    simp [h, this]
+
+/-- the address-table model's `appendRecv` (C17) is that decision -/
+theorem gen_appendRecv (s : Sap.Sock) (p : Sap.Pdu) :
+    Sap.appendRecv s p = if Gen.Fn.tco_enqueue_room s.recvq.length s.recvBuf then { s with recvq := s.recvq ++ [p] } else s := by
+  rw [enqueue_room_bridge]; unfold Sap.appendRecv
+  by_cases h : s.recvq.length < s.recvBuf <;> simp [h]
+
+/-- `DataLinkConnection.setsockopt`: SO_RCVMIU (2) and SO_RCVBUF (4) only on a CLOSED socket, clamped to
+2175 octets resp. 15 PDUs, `recv_buf` follows the window; SO_RCVBSY (6) in any state -/
+theorem dlc_setsockopt_bridge (option value : Int) (closed : Bool) (miu win buf : Int) (busy : Bool) :
+    Gen.Fn.tco_dlc_setsockopt option value closed miu win buf busy =
+      if option = 2 ∧ closed then (min value 2175, win, buf, busy)
+      else if option = 4 ∧ closed then (miu, min value 15, min value 15, busy)
+      else if option = 6 then (miu, win, buf, decide (value ≠ 0))
+      else (miu, win, buf, busy) := by
+  have hm : ∀ a b : Int, imin a b = min a b := by
+    intro a b; unfold imin; split <;> omega
+  unfold Gen.Fn.tco_dlc_setsockopt
+  simp only [hm]
+
+/-- a data link connection socket as `llc.socket()` creates it (`recv_miu` 128, `recv_win` 1) after
+`setsockopt(SO_RCVBUF, rw)` and `setsockopt(SO_RCVMIU, miu)`: the values of the model's `DlcSap.Sock.new` -/
+theorem gen_sock_new (sid rw miu : Nat) :
+    let s1 := Gen.Fn.tco_dlc_setsockopt 4 rw true 128 1 1 false
+    let s2 := Gen.Fn.tco_dlc_setsockopt 2 miu true s1.1 s1.2.1 s1.2.2.1 s1.2.2.2
+    (((DlcSap.Sock.new sid rw miu).rmiu : Int), ((DlcSap.Sock.new sid rw miu).rwin : Int),
+      ((DlcSap.Sock.new sid rw miu).buf : Int), false) = s2 := by
+  simp only [dlc_setsockopt_bridge, DlcSap.Sock.new]
+  simp
+  omega
+
+
+example : Gen.Fn.tco_dlc_send_state [1] false true 128 = .error (.llcp 32) := by decide
+example : Gen.Fn.tco_dlc_send_state [1] false false 128 = .error (.llcp 107) := by decide
+example : Gen.Fn.tco_dlc_send_dontwait 1 = .error (.llcp 11) := by decide
+example : Gen.Fn.tco_est_nr "RR" 3 1 5 true = (7, 3, false) := by decide
+example : Gen.Fn.tco_est_check [1, 2, 3] 5 2 5 4 1 = some 4 := by decide
+example : Gen.Fn.tco_est_check [1, 2] 6 2 5 4 1 = some 1 := by decide
+example : Gen.Fn.tco_est_check [1, 2] 5 2 5 4 1 = none := by decide
+example : Gen.Fn.tco_dlc_recv_confs 1 1 = .error .runtime := by decide
+example : Gen.Fn.tco_deq_piggyback 2 5 3 = (5, 5, 0) := by decide
+example : Gen.Fn.tco_dequeue_fit (some 128) 4 "I" 131 3 = none := by decide
+example : Gen.Fn.tco_dequeue_fit (some 128) 0 "I" 131 3 = some 131 := by decide
+example : Gen.Fn.tco_dequeue_fit none 0 "I" 500 3 = some 500 := by decide
+example : Gen.Fn.tco_dlc_setsockopt 4 20 true 128 1 1 false = (128, 15, 15, false) := by decide
+example : Gen.Fn.tco_dlc_setsockopt 4 20 false 128 1 1 false = (128, 1, 1, false) := by decide
+
+/-- observation (outside the quantifier of C05, which takes RW in 1..15 and MIU >= 128): `setsockopt` clamps
+the receive window and the receive MIU only from above; a non-positive `SO_RCVBUF` or an `SO_RCVMIU` below
+128 is stored as given (the CONNECT / CC PDU built from `recv_win = -1` then fails to encode) -/
+theorem setsockopt_lower_bound_counterexample :
+    Gen.Fn.tco_dlc_setsockopt 4 (-1) true 128 1 1 false = (128, -1, -1, false) ∧
+    Gen.Fn.tco_dlc_setsockopt 2 5 true 128 1 1 false = (5, 1, 1, false) := by decide
+
+/-! ## acknowledgement decisions -/
+
+/-- `DataLinkConnection.sendack()`: the model's `Ep.sendack` with the regenerated test and update -/
+theorem sendack_bridge (e : Dlc.Ep) :
+    e.sendack =
+      if e.st = .established ∧ Gen.Fn.tco_sendack_cond e.confs e.vr e.vra = true then
+        (let c := Gen.Fn.tco_sendack_confirm e.vra e.confs
+         let e' := { e with vra := c.1.toNat, gRA := e.gRA + e.confs, confs := c.2.toNat }
+         (e', some (e.ackPdu e'.vra)))
+      else (e, none) := by
+  have hc : (Gen.Fn.tco_sendack_cond e.confs e.vr e.vra = true) ↔ (e.confs ≠ 0 ∧ e.vr ≠ e.vra) := by
+    unfold Gen.Fn.tco_sendack_cond; simp only [decide_eq_true_eq]; omega
+  have hu := sendack_confirm_bridge e
+  unfold Dlc.Ep.sendack
+  simp only [hc, hu, Int.toNat_natCast]
+  rfl
+
+/-- the "necessary acknowledgement" of `dequeue` (nothing to send, receive window exhausted): the model's
+`necessary` branch of `Ep.deq`, with the regenerated test, window function and update -/
+theorem deq_necessary_bridge (e : Dlc.Ep) (budget : Int) (hb : ¬ (e.st = .established ∧ e.busySent ≠ e.busy))
+    (hq : e.sq = []) :
+    e.deq budget =
+      if Gen.Fn.tco_deq_necessary_cond (decide (e.st = .established)) e.confs
+           (Gen.Fn.tco_recv_window_slots e.recvWin e.vr e.vra) = true then
+        (let c := Gen.Fn.tco_deq_necessary_confirm e.vra e.confs
+         let e' := { e with vra := c.1.toNat, gRA := e.gRA + e.confs, confs := c.2.toNat }
+         (e', some (e.ackPdu e'.vra)))
+      else (e, none) := by
+  have hc : (Gen.Fn.tco_deq_necessary_cond (decide (e.st = .established)) e.confs
+           (Gen.Fn.tco_recv_window_slots e.recvWin e.vr e.vra) = true) ↔
+      (e.st = .established ∧ e.confs ≠ 0 ∧ e.recvSlots = 0) := by
+    rw [recv_window_slots_bridge]
+    unfold Gen.Fn.tco_deq_necessary_cond
+    simp only [decide_eq_true_eq]
+    constructor
+    · rintro ⟨h1, h2, h3⟩; exact ⟨h1, by omega, h3⟩
+    · rintro ⟨h1, h2, h3⟩; exact ⟨h1, by omega, h3⟩
+  have hu := deq_necessary_confirm_bridge e
+  unfold Dlc.Ep.deq
+  simp only [hb, if_false, hc, hu, Int.toNat_natCast]
+  split
+  · rfl
+  · rename_i h; rw [hq] at h; cases h
+
+
+example : Gen.Fn.tco_sendack_cond 2 5 3 = true := by decide
+example : Gen.Fn.tco_sendack_cond 0 5 3 = false := by decide
+example : Gen.Fn.tco_deq_necessary_cond true 1 0 = true := by decide
+
+/-! ## state checks of the socket calls, poll -/
+
+/-- `poll('send')` / `poll('acks')` of the model's endpoint with the regenerated results -/
+theorem poll_bridge (e : Dlc.Ep) (hb : e.bound = true) (hs : e.st = .established) :
+    e.poll .send = (e, .bool (Gen.Fn.tco_poll_send_ready e.sq.length (1 : Nat))) ∧
+    e.poll .acks = (if Gen.Fn.tco_poll_acks e.acks then
+                      ({ e with acks := (Gen.Fn.tco_poll_acks_dec e.acks).toNat }, .bool true)
+                    else (e, .bool false)) := by
+  have h1 : Gen.Fn.tco_poll_send_ready e.sq.length (1 : Nat) = decide (e.sq.length < 1) := by
+    unfold Gen.Fn.tco_poll_send_ready
+    by_cases h : e.sq.length < 1
+    · simp [h]; omega
+    · simp [h]; omega
+  have h2 : Gen.Fn.tco_poll_acks e.acks = decide (e.acks > 0) := by
+    unfold Gen.Fn.tco_poll_acks
+    by_cases h : e.acks > 0
+    · simp [h]
+    · simp [h]
+  have h3 : (Gen.Fn.tco_poll_acks_dec e.acks).toNat = e.acks - 1 := by
+    unfold Gen.Fn.tco_poll_acks_dec; simp only; omega
+  rw [h1, h2, h3]
+  unfold Dlc.Ep.poll
+  constructor
+  · simp [hb, hs]
+  · by_cases h : e.acks > 0 <;> simp [hb, hs, h]
+
+/-- `DataLinkConnection.listen(backlog)`: the state tests of the collection model's `listen` operation
+(ESHUTDOWN 108, ENOTSUP 95), then `recv_buf := backlog` -/
+theorem dlc_listen_bridge (backlog : Int) (st : Collect.DlcState) (buf : Int) :
+    Gen.Fn.tco_dlc_listen backlog (decide (st = .shutdown)) (decide (st = .closed)) buf =
+      if st = .shutdown then .error (.llcp 108) else if st ≠ .closed then .error (.llcp 95) else .ok backlog := by
+  unfold Gen.Fn.tco_dlc_listen
+  cases st <;> simp
+
+theorem gen_collect_listen (M : Nat) (sec : Option Nat) (agf : Bool) (es : List Collect.Ent) (a j : Nat)
+    (d : Collect.Dlc) (q : List Collect.QPdu) (h : Collect.getSock es a j = some (.dlc d q)) (backlog : Int) :
+    Collect.step M sec agf es (.listen a j) =
+      match Gen.Fn.tco_dlc_listen backlog (decide (d.state = .shutdown)) (decide (d.state = .closed)) 1 with
+      | .error e => (es, .exc e)
+      | .ok _ => (Collect.setSock es a j (.dlc { d with state := .listen } q), .ok) := by
+  rw [dlc_listen_bridge]
+  simp only [Collect.step, h]
+  by_cases h1 : d.state = .shutdown
+  · simp [h1]
+  · by_cases h2 : d.state = .closed <;> simp [h1, h2]
+
+/-- `DataLinkConnection.connect()` on a socket that is not CLOSED: EISCONN 106 / EALREADY 114 / EPIPE 32,
+as in the collection model's `connected` operation -/
+theorem dlc_connect_state_bridge (st : Collect.DlcState) :
+    Gen.Fn.tco_dlc_connect_state (decide (st = .closed)) (decide (st = .established)) (decide (st = .connect)) =
+      if st = .closed then .ok ()
+      else if st = .established then .error (.llcp 106)
+      else if st = .connect then .error (.llcp 114) else .error (.llcp 32) := by
+  unfold Gen.Fn.tco_dlc_connect_state
+  cases st <;> simp
+
+/-- `DataLinkConnection.accept()`: ESHUTDOWN 108, EINVAL 22 unless LISTEN (`accepted` operation) -/
+theorem dlc_accept_state_bridge (st : Collect.DlcState) :
+    Gen.Fn.tco_dlc_accept_state (decide (st = .shutdown)) (decide (st = .listen)) =
+      if st = .shutdown then .error (.llcp 108) else if st ≠ .listen then .error (.llcp 22) else .ok () := by
+  unfold Gen.Fn.tco_dlc_accept_state
+  cases st <;> simp
+
+/-- `DataLinkConnection.recv()`: ENOTCONN 107 unless ESTABLISHED or CLOSE_WAIT (`Ep.recv`) -/
+theorem dlc_recv_state_bridge (e : Dlc.Ep) (hb : e.bound = true) :
+    (∀ x, Gen.Fn.tco_dlc_recv_state (decide (e.st = .established)) (decide (e.st = .closeWait)) = .error x →
+       e.recv = (e, .exc x)) ∧
+    (Gen.Fn.tco_dlc_recv_state (decide (e.st = .established)) (decide (e.st = .closeWait)) = .ok () →
+       (e.st = .established ∨ e.st = .closeWait)) := by
+  unfold Gen.Fn.tco_dlc_recv_state Dlc.Ep.recv
+  cases hs : e.st <;> simp [hb]
+
+/-- a raw access point calls the base `dequeue` with `miu_size=None` (tco.py:255, a keyword call that is not
+translated): then no PDU is ever requeued, whatever its size -/
+theorem gen_raw_dequeue_always (icv : Int) (name : String) (len hs : Int) :
+    Gen.Fn.tco_dequeue_fit none icv name len hs ≠ none := by
+  unfold Gen.Fn.tco_dequeue_fit
+  simp
+
+
+example : Gen.Fn.tco_dlc_listen 4 false true 1 = .ok 4 := by decide
+example : Gen.Fn.tco_dlc_listen 4 false false 1 = .error (.llcp 95) := by decide
+example : Gen.Fn.tco_dlc_connect_state false false true = .error (.llcp 114) := by decide
+example : Gen.Fn.tco_dlc_accept_state false false = .error (.llcp 22) := by decide
+example : Gen.Fn.tco_dlc_recv_state false false = .error (.llcp 107) := by decide
+example : Gen.Fn.tco_poll_acks 1 = true := by decide
 
 end NfcVerif.FnBridge.Tco
